@@ -4,6 +4,23 @@ import json, subprocess
 
 CLAIMED = {
  # id: (technique, level text, level note, design ref)
+
+ "C02": ("property-based testing: generated operator sequences against an independent precedence-climbing reference parser, plus model-free fully-parenthesised metamorphic check; exhaustive operator pairs/triples",
+         "Exploration: every built-in infix operator pair (exhaustive, with `not` forms and conditional tails), representative triples, and hundreds of thousands of random flat programs are parsed and compared structurally with a reference parser written from the documented table; held on everything generated.",
+         "Trusts the reference parser as the reading of the documented table (itself cross-checked per case by the parenthesised rendering, which needs no precedence knowledge).",
+         "DESIGN.md §4 C02"),
+ "C09": ("property-based testing: generated decimal literals and operand pairs against exact big-integer decimal arithmetic; malformed-literal corpus and generator",
+         "Exploration: literals of every digit count/scale and pairs under + - * % < <= > >= == != and compound forms are evaluated and compared with exact arithmetic whenever the exact result is representable; malformed literals must be rejected.",
+         "Trusts the harness's big-integer decimal code (unit-tested); results that need rounding are not asserted.",
+         "DESIGN.md §4 C09"),
+ "C11": ("property-based testing, metamorphic: AST(canonical) == AST(re-laid-out) == AST(with redundant parentheses) over generated programs",
+         "Exploration: generated programs are re-rendered with random whitespace (incl. empty where lexically safe) at every token boundary and with 1-3 pairs of parentheses around complete subexpressions; all renderings must give the same AST.",
+         "Token boundaries and subexpression spans come from the generator / reference parser; no oracle for the tree itself is needed.",
+         "DESIGN.md §4 C11"),
+ "C12": ("property-based testing, round trip: parse(expr(parse(s))) == parse(s) and idempotent rendering; exhaustive parent/child operator placements",
+         "Exploration: all 32x32x2 parent/child infix placements, prefix/postfix/conditional placements and hundreds of thousands of random programs are parsed, rendered with expr(), re-parsed and compared structurally (numbers by mantissa and scale).",
+         "Trusts structural comparison of the engine's own AST type; names are never operator words (the property's precondition).",
+         "DESIGN.md §4 C12"),
  "C17": ("property-based testing: generated integers/floats/decimals/values against an exact big-integer oracle; exhaustive accessor x variant table",
          "Exploration: every integer type over all magnitudes (uniform + boundary ladders), floats over all exponents, decimals of every scale and the full accessor table are converted and compared with exact arithmetic; held on everything generated. Not a proof.",
          "Trusts Decimal::mantissa()/scale() for reading results and the harness's own big-integer code (unit-tested against hand-computed vectors); float tolerance is stated in the evidence.",
